@@ -44,13 +44,13 @@ type cfg struct {
 	K         int
 	CON       bool
 	BlockWise bool
-	TokFamily bool   // caller-chosen tokens of different lengths that share bytes: b0, b000, 00b0
+	TokFamily bool // caller-chosen tokens of different lengths that share bytes: b0, b000, 00b0
 	// "then": a further caller with a FRESH token starts after caller 0's call has returned (caller 0 may give up at the moment its response arrives)
-	Collide   string // "" | "reuse" (caller K reuses caller 0's outstanding token) | "race" (callers 0 and 1 use the same token concurrently) | "after" (caller K reuses caller 0's token after that call has returned)
-	Preempt   int
-	Env       int
-	BigBody   bool // responses carry 40-byte bodies over 3 blocks (SZX16)
-	Large     bool // responses carry 3000-byte payloads in one message (larger than the pooled message's buffers)
+	Collide string // "" | "reuse" (caller K reuses caller 0's outstanding token) | "race" (callers 0 and 1 use the same token concurrently) | "after" (caller K reuses caller 0's token after that call has returned)
+	Preempt int
+	Env     int
+	BigBody bool // responses carry 40-byte bodies over 3 blocks (SZX16)
+	Large   bool // responses carry 3000-byte payloads in one message (larger than the pooled message's buffers)
 }
 
 func (c cfg) String() string {
@@ -506,6 +506,7 @@ func main() {
 			}
 		}
 	}
+	addObserveCollide(r, &scs)
 	sum := mcx.Explore(r, scs, mcx.Config{Wall: ev.Pick(r, 4*time.Minute, 30*time.Minute)})
 	mcx.Report(r, scs, sum)
 	r.Set("rule", "scenario = transport x callers (2-3, distinct tokens, or colliding tokens: reuse of an outstanding token / two callers racing with the same token) x CON|NON x block-wise on/off (incl. 3-block response bodies); the scripted peer answers each request it saw on the wire in every order with piggy-backed / empty-ACK-then-separate (CON or NON) responses, at most one duplicated and one unknown-token response per deviation budget; all schedules within the preemption bound; oracle: a successful Do returns its own token and the nonce the peer produced for that request, no nonce is returned twice, a reused outstanding token is rejected and the first caller still succeeds; distinct outcome = distinct (peer history, per-caller result); collide=after: a further caller re-uses the token of a call that has returned while second copies of the finished exchange's responses may still arrive (classified per duplicated message type)")
